@@ -227,5 +227,7 @@ def check(repo, rep, tier):
     rep.floor('Unification(...) client sites', n, 16)
     r_scan(repo, rep)
     r_scan_deep(repo, rep)
+    from .c13 import r_xor
+    r_xor(repo.module('depccg/cat.py'), rep, 'R6.3')
     r_feature_loop(repo, rep)
     r_feature_relations(repo, rep)
